@@ -421,7 +421,6 @@ func corpusFiles(prop string) []string {
 	return out
 }
 
-
 // hasAliasCycle: an alias points at one of its own ancestors (`foo: &a [*a]`); yaml.v3 builds the cyclic graph.
 func hasAliasCycle(docs []parser.VerifDoc) bool {
 	found := false
@@ -483,4 +482,3 @@ func hasTemplateAliasCycle(content string) bool {
 	}
 	return false
 }
-
